@@ -1209,7 +1209,7 @@ def _sides_info(tree: ast.Module, vtf: ast.ClassDef) -> dict:
     mv = loop.target.id if isinstance(loop.target, ast.Name) else '?'
     want_dims = [f'max(self.width >> {mv}, 1)', f'max(self.height >> {mv}, 1)']
     blank = False
-    lookups = 0
+    lookups: set[str] = set()       # distinct lookup expressions (a local that named the looked-up frame may have been inlined)
     for n in ast.walk(loop):
         if isinstance(n, ast.Try):
             looks = [b for b in n.body if isinstance(b, ast.Assign) and isinstance(b.value, ast.Subscript) and ast.unparse(b.value.value) == 'self._frames']
@@ -1228,13 +1228,28 @@ def _sides_info(tree: ast.Module, vtf: ast.ClassDef) -> dict:
             else:
                 _err(h, f'save: a missing side is replaced by {ast.unparse(v)}, expected Frame({", ".join(want_dims)})')
         if isinstance(n, ast.Subscript) and ast.unparse(n.value) == 'self._frames':
-            lookups += 1
+            lookups.add(ast.unparse(n))
         if isinstance(n, ast.Call) and ast.unparse(n.func) == 'self._frames.get':
             _err(n, 'save: self._frames.get(...) in the frame loop is not understood')
-    if lookups != 1:
-        _err(loop, f'save: {lookups} frame table lookups in the frame loop')
+    if len(lookups) != 1:
+        _err(loop, f'save: {len(lookups)} different frame table lookups in the frame loop')
     info['missing_blank'] = blank
     return info
+
+
+def _compute_from_previous(cm: ast.FunctionDef) -> bool:
+    """`for M in range(1, self.mipmap_count)`: the level self._frames[A, B, M] and self._frames[A, B, M - 1] of the SAME
+    frame and side are used (whatever the variables are called)"""
+    for n in ast.walk(cm):
+        if isinstance(n, ast.For) and isinstance(n.target, ast.Name) and ast.unparse(n.iter) == 'range(1, self.mipmap_count)':
+            m = n.target.id
+            subs = [x for x in ast.walk(n) if isinstance(x, ast.Subscript) and ast.unparse(x.value) == 'self._frames'
+                    and isinstance(x.slice, ast.Tuple) and len(x.slice.elts) == 3]
+            cur = {tuple(ast.unparse(e) for e in x.slice.elts[:2]) for x in subs if ast.unparse(x.slice.elts[2]) == m}
+            prev = {tuple(ast.unparse(e) for e in x.slice.elts[:2]) for x in subs if ast.unparse(x.slice.elts[2]) == f'{m} - 1'}
+            others = [x for x in subs if ast.unparse(x.slice.elts[2]) not in (m, f'{m} - 1')]
+            return len(cur) == 1 and cur == prev and not others
+    return False
 
 
 def layout_info() -> dict:
@@ -1254,9 +1269,7 @@ def layout_info() -> dict:
                                  and rd.get('mip_height') == f'max(height >> {info["read"]["var"]}, 1)')
     # compute_mipmaps: for mipmap in range(1, self.mipmap_count): rescale_from(level mipmap - 1)
     cm = _find_method(vtf, 'compute_mipmaps')
-    s = ast.unparse(cm)
-    info['compute_from_previous_level'] = ('for mipmap in range(1, self.mipmap_count)' in s
-                                           and 'self._frames[frame_num, depth_side, mipmap - 1]' in s)
+    info['compute_from_previous_level'] = _compute_from_previous(cm)
     rw = ast.parse(src_text('_py_vtf_readwrite.py'))
     sd = next((n for n in rw.body if isinstance(n, ast.FunctionDef) and n.name == 'scale_down'), None)
     if sd is None:
